@@ -333,19 +333,21 @@ def mod_long(draw, c):
     def L(salt, ascii_only=False):
         return longstr(S(draw, LONG_UNITS), 'ascii' if ascii_only else S(draw, ['mixed', 'ascii']), salt + 10 * i)
     doc = L(1); e1 = L(2); dflt = L(3); fixed = L(4); pub = L(5, True); sysid = L(6)
-    alts = longstr(S(draw, [4500, 3000, 9000]), 'ascii', 7 + i).strip('.').split('.')
-    pat = 'k(' + '|'.join(alts) + ')'
+    # long pattern (costly to compile under ASan: one case in three): the short alternative comes first so that instances never
+    # have to be matched against the long literal; the pattern text itself is compared through the model dump
+    lit = longstr(S(draw, [4500, 9000, 6000]), 'ascii', 7 + i).replace('.', '_') if I(draw, 0, 2) == 0 else 'lit_%d' % i
+    pat = 'short[0-9]?|' + lit
     d = ('<xs:simpleType name="le%d"><xs:annotation><xs:documentation>%s</xs:documentation></xs:annotation><xs:restriction base="xs:string">'
          '<xs:enumeration value="%s"/><xs:enumeration value="short"/></xs:restriction></xs:simpleType>'
          '<xs:simpleType name="lp%d"><xs:restriction base="xs:string"><xs:pattern value="%s"/></xs:restriction></xs:simpleType>'
          '<xs:notation name="ln%d" public="%s" system="%s"/>' % (i, doc, e1, i, pat, i, pub, sysid))
     part = ('<xs:element name="m%d"><xs:complexType><xs:attribute name="d" type="xs:string" default="%s"/><xs:attribute name="f" type="xs:string" fixed="%s"/>'
             '<xs:attribute name="e" type="%sle%d"/><xs:attribute name="p" type="%slp%d"/></xs:complexType></xs:element>' % (i, dflt, fixed, tp, i, tp, i))
-    valid = ['<m%d/>' % i, '<m%d e="%s"/>' % (i, e1), '<m%d f="%s" p="k%s"/>' % (i, fixed, alts[-1]), '<m%d e="short" p="k%s"/>' % (i, alts[len(alts) // 2])]
-    invalid = [('facet:enumeration', '<m%d e="%sQ"/>' % (i, e1[:-1])), ('fixed', '<m%d f="%sQ"/>' % (i, fixed[:-1])), ('facet:pattern', '<m%d p="kzz"/>' % i)]
+    valid = ['<m%d/>' % i, '<m%d e="%s"/>' % (i, e1), '<m%d f="%s" p="short"/>' % (i, fixed), '<m%d e="short" p="short7"/>' % i]
+    invalid = [('facet:enumeration', '<m%d e="%sQ"/>' % (i, e1[:-1])), ('fixed', '<m%d f="%sQ"/>' % (i, fixed[:-1])), ('facet:pattern', '<m%d p="zz"/>' % i)]
     return dict(decls=d, particle=part, valid=valid, invalid=invalid, kinds={'long-string', 'facet:enumeration', 'facet:pattern', 'fixed', 'default', 'notation', 'annotation'})
 
-MODULES = [mod_long, mod_long, mod_simple, mod_simple, mod_simple, mod_attrs, mod_group, mod_all, mod_wild, mod_ext, mod_simplecontent, mod_mixed_empty, mod_subst, mod_values, mod_idc, mod_idc,
+MODULES = [mod_long, mod_simple, mod_simple, mod_simple, mod_attrs, mod_group, mod_all, mod_wild, mod_ext, mod_simplecontent, mod_mixed_empty, mod_subst, mod_values, mod_idc, mod_idc,
            mod_notation, mod_recursive, mod_counting, mod_import]
 PLAIN_KINDS = {'occurs'}       # everything else is "beyond plain elements/attributes"
 
@@ -495,7 +497,7 @@ def gen_dtd(draw, idx=0):
         decls.append('<!ENTITY ext SYSTEM "ext%d.ent">' % idx); kinds.add('dtd:external-entity')
     if pe and B(draw):
         decls.append('<![INCLUDE[<!ATTLIST a inc CDATA "1">]]><![IGNORE[<!ELEMENT zz ANY>]]>'); kinds.add('dtd:conditional')
-    if I(draw, 0, 2) == 0:
+    if I(draw, 0, 3) == 0:
         cls = S(draw, ['mixed', 'ascii'])
         decls.append('<!ENTITY big "%s"><!ATTLIST a bigd CDATA "%s"><!NOTATION bign PUBLIC "%s" "%s">'
                      % (longstr(S(draw, LONG_UNITS), cls, 21 + idx), longstr(S(draw, LONG_UNITS), cls, 22 + idx), longstr(S(draw, LONG_UNITS), 'ascii', 23 + idx), longstr(S(draw, LONG_UNITS), cls, 24 + idx)))
